@@ -641,6 +641,33 @@ example : ScanX.Ends "nop\n  ; note\n".toList.toArray ∧ (scan cfgX .initial 0 
 example : (scan cfgX .initial 0 ("nop\n  ; note\n" ++ "lda #1\n").toList).toks.toList.map ScanS.key =
     (scan cfgX .initial 0 "nop\n  ; note\n".toList).toks.pop.toList.map ScanS.key ++
       (scan cfgX .initial 0 "lda #1\n".toList).toks.toList.map ScanS.key := by decide +kernel
+/-- the text of a run of full-line `;` comments, each behind its own indentation -/
+def commentLines : List (List Char × List Char) → List Char
+  | [] => []
+  | (ws, cs) :: rest => ws ++ ';' :: (cs ++ '\n' :: commentLines rest)
+
+open ScanS ScanX in
+/-- **any number of full-line comments between two lines change no token the parser sees**: `insert_comment_line`
+    iterated — for every list of (indentation, comment text) pairs (blank indentation, newline-free text) -/
+theorem insert_comment_lines (cfg : ScanCfg) (hcfg : ScanP.CfgOK cfg) (f : Nat) (p r : List Char)
+    (he : Ends p.toArray) (hok : (scan cfg .initial f p).error = none) :
+    ∀ (cms : List (List Char × List Char)), (∀ c ∈ cms, c.1.all isBlank = true ∧ ∀ x ∈ c.2, x ≠ '\n') →
+    codeKeys (scan cfg .initial f (p ++ (commentLines cms ++ r))).toks = codeKeys (scan cfg .initial f (p ++ r)).toks ∧
+    (scan cfg .initial f (p ++ (commentLines cms ++ r))).error.map errKey = (scan cfg .initial f (p ++ r)).error.map errKey := by
+  intro cms
+  induction cms with
+  | nil => intro _; exact ⟨rfl, rfl⟩
+  | cons c rest ih =>
+    intro h
+    obtain ⟨ws, cs⟩ := c
+    obtain ⟨h1, h2⟩ := h (ws, cs) List.mem_cons_self
+    obtain ⟨i1, i2⟩ := ih (fun x hx => h x (List.mem_cons_of_mem _ hx))
+    obtain ⟨k1, k2⟩ := insert_comment_line cfg hcfg f p ws cs (commentLines rest ++ r) he hok h1 h2
+    have e : commentLines ((ws, cs) :: rest) ++ r = ws ++ ';' :: (cs ++ '\n' :: (commentLines rest ++ r)) := by
+      simp [commentLines]
+    rw [e]
+    exact ⟨k1.trans i1, k2.trans i2⟩
+
 open ScanS ScanX in
 /-- **inserting or removing a `/* … */` comment between lines changes no token the parser sees**: as
     `insert_comment_line`, for a comment of any shape (several lines, banner, switched-off code) opened at a
